@@ -388,7 +388,7 @@ def check_files(ctx, case):
         ctx.fail('third-library-update-raises:%s' % type(e).__name__, '[%s] %s: %s' % (label, type(e).__name__, e))
     # the same between two libraries that were put together in memory (neither has a file path)
     try:
-        M1, M2 = m['Lib'](la.scheme, {}), m['Lib'](la.scheme, {})
+        M1, M2 = m['Lib'](la.scheme), m['Lib'](la.scheme)        # (created empty by the constructor's own default)
         M1.Update(lb)
         M2.Update(la)
         M2.Update(M1, overwrite=True)
